@@ -74,3 +74,5 @@ def step (ps : Option PartSet.PartSet) (toks : List String) : Option PartSet.Par
 def machine : Machine := { σ := Option PartSet.PartSet, init := none, step := step }
 
 end Tmv.Drv.C10
+
+def main : IO Unit := Tmv.Drv.run Tmv.Drv.C10.machine
